@@ -76,6 +76,9 @@ func (fr *frame) callFunction(v ssa.Value, callee *ssa.Function, args, binds []V
 	if r, ok := fr.intrinsic(v, callee, args, pos); ok {
 		return r
 	}
+	if r, ok := fr.lockIntrinsic(v, callee, args, pos); ok {
+		return r
+	}
 	ct := u.eng.ContractFor(callee)
 	if ct == nil && callee.Origin() != nil {
 		ct = u.eng.ContractFor(callee.Origin())
@@ -101,8 +104,19 @@ func (fr *frame) callFunction(v ssa.Value, callee *ssa.Function, args, binds []V
 	return fr.unknownCall(v, callee.String(), args, callee.Signature)
 }
 
+// anonymous functions called directly (or deferred) are inlined when they are small and loop-free
 func (fr *frame) closureInlineOK(callee *ssa.Function) bool {
-	return false
+	if len(callee.Blocks) > 40 {
+		return false
+	}
+	for _, b := range callee.Blocks {
+		for _, s := range b.Succs {
+			if s.Dominates(b) {
+				return false
+			}
+		}
+	}
+	return true
 }
 
 // small, loop-free library helpers that are verified from their bodies at each use
@@ -346,12 +360,27 @@ func (e *Engine) pureExtern(name string) bool {
 }
 
 func (fr *frame) invokeCall(v ssa.Value, c *ssa.CallCommon, recv Val) Val {
+	var rest []Val
+	for _, a := range c.Args {
+		rest = append(rest, fr.val(a))
+	}
+	return fr.invokeCallVals(v, c, recv, rest)
+}
+
+func (fr *frame) invokeCallVals(v ssa.Value, c *ssa.CallCommon, recv Val, rest []Val) Val {
 	u := fr.u
 	// interface method contract: key "(pkg.Iface).Method"
 	var args []Val
 	args = append(args, recv)
-	for _, a := range c.Args {
-		args = append(args, fr.val(a))
+	args = append(args, rest...)
+	if recv.dyn != nil {
+		ms := u.eng.Prog.MethodSets.MethodSet(recv.dyn)
+		if sel := ms.Lookup(c.Method.Pkg(), c.Method.Name()); sel != nil {
+			if callee := u.eng.Prog.MethodValue(sel); callee != nil {
+				a2 := append([]Val{*recv.dynV}, rest...)
+				return fr.callFunction(v, callee, a2, nil, v.(ssa.Instruction))
+			}
+		}
 	}
 	name := "(" + shortQual(c.Value.Type()) + ")." + c.Method.Name()
 	if ct := u.eng.ifaceContract(c.Value.Type(), c.Method.Name()); ct != nil {
@@ -533,6 +562,13 @@ func (fr *frame) builtin(b *ssa.Builtin, c *ssa.CallCommon, pos ssa.Instruction)
 		return Val{}
 	case "print", "println":
 		return Val{}
+	case "recover":
+		return Val{t: "(mk-ifc 0 0)", typ: types.Universe.Lookup("any").Type()}
+	case "close":
+		return Val{}
+	}
+	if len(c.Args) == 0 {
+		panic(unsupportedf("builtin %s", b.Name()))
 	}
 	panic(unsupportedf("builtin %s on %s", b.Name(), c.Args[0].Type()))
 }
